@@ -532,7 +532,13 @@ pub fn check(case: &Case, obs: &mut Obs, which: Which, ctx: &Ctx) -> CheckResult
                         obs.class("probe-duplicate");
                     }
                     if ungated.is_empty() && !holders.is_empty() {
-                        return crate::rt::viol("history-routed-to-gated-link", format!("+{} ms: unique copy only on stall-gated link(s) {:?}", tnow - t0, holders));
+                        if torn_now {
+                            // the unique copy went to a link whose threshold flush failed inside this call and died
+                            // with that link's queue (allowed by C01); what is left is the probe copy on the gated link
+                            obs.class("unique-copy-lost-with-failed-link");
+                        } else {
+                            return crate::rt::viol("history-routed-to-gated-link", format!("+{} ms: unique copy only on stall-gated link(s) {:?}", tnow - t0, holders));
+                        }
                     }
                     let ineligible = (0..n).any(|i| {
                         let c = &sh.st.conns[i];
